@@ -175,6 +175,7 @@ def _fmt(b):
 def run_case(case):
     out = core.Outcome()
     log = core.EventLog(keep=False)
+    S.fresh_module()
     dest_arg, dest, part = S.paths(case)
     prior = case.get('prior')
 
@@ -235,8 +236,9 @@ def run_case(case):
             out.fail('normal-exit-part-left', N, 'after a normal exit the part file still exists', phase='fault-free')
     if out.violation is None:
         _check_order(base, dest, new, out, N)
-    if out.violation is None and not refused and base.sim.binding_changes.get(dest, 0) != 1:
-        out.fail('dest-binding-not-one-step', N, 'the destination name was (re)bound by %d seam calls, expected exactly 1'
+    if out.violation is None and not refused and base.sim.binding_changes.get(dest, 0) > 1:
+        # (zero is fine when the old content already equals the new one and is left in place)
+        out.fail('dest-binding-not-one-step', N, 'the destination name was (re)bound by %d seam calls, expected one atomic step'
                  % base.sim.binding_changes.get(dest, 0))
 
     # ---- crash enumeration ------------------------------------------------------------------
